@@ -58,13 +58,13 @@ REG = {
         "assumptions": _ASSUME,
     },
     "C11": {
-        "module": "Props.C11",
+        "module": ["Props.C11", "Props.C11Gen"],
         "suites": [("ns", (2500, 40000))],
         "rule": "85% version families: 1-3 names x 1-4 versions out of {0.1,0.2,1.0,1.1,1.2,2.0,2.1,3.0} with per-major base configuration (kind, port-ID, sealing, "
                 "extent, fields) and per-version deviations (kind flip, port-ID added/removed/changed, sealing flip, extent change, same extent through different "
                 "content), request and response separately for services, names sharing port-IDs, families located in the target namespace or pulled in from a "
                 "lookup namespace, read_namespace and read_files; 15% general dependency graphs; " + "non-trivial = at least two files",
-        "technique": _TECH,
+        "technique": _TECH + "; the two decision kernels (_ensure_no_fixed_port_id_collisions, _ensure_minor_version_compatibility_pairwise) are re-translated from _namespace.py to Lean on every run (py2lean) and proved equal to the model, exception class included",
         "level_text": "Proved in Lean 4 for all lists of definitions with pairwise distinct (name, version): the two checks of _namespace.py accept iff the "
                       "declarative rule of the property holds (same kind never shares a fixed port-ID unless same full name and same major or a major 0; under "
                       "one major: same kind, port-ID may be added in a newer minor but not changed or removed, for major >= 1 equal extent and sealing, request "
